@@ -107,6 +107,8 @@ def patch_clock():
 def outcome(fn, show=None):
     try:
         r = fn()
+    except (Hang, Budget) as e:     # the code under test does not come to an end on its own
+        return "exc " + type(e).__name__
     except Exception as e:  # noqa
         return "exc " + exc_name(e)
     if r is None:
@@ -422,3 +424,194 @@ def snep_client(fragments, op="get", send_miu=128, acceptable=1024, octets=b"\xd
     else:
         r = outcome(lambda: cl.put_octets(octets, 0.1))
     return r, sock
+
+
+# ------------------------------------------------------------------ Type 3 Tag emulation with any set of services
+class GenEmu(object):
+    """A real ``Type3TagEmulation`` whose services come from a table [(service code, mode)] - the
+    Python twin of ``PeerT3.storeSvc``: 'rw' blocks of the store, 'ro' readable only (write callback
+    returns False), 'even' only even block numbers exist, 'deflt' = add_service(code, None, None).
+    ``sensf_res`` may be short: IDm/PMm/system code are the slices the constructor takes."""
+
+    def __init__(self, store, table, sensf_res):
+        import nfc.tag.tt3
+        self.store = bytearray(store)
+        self.calls = []
+        self.table = list(table)
+        tgt = nfc.clf.LocalTarget("212F", sensf_res=bytearray(sensf_res), tt3_cmd=bytearray(b"\x00\x12\xFC\x00\x00"))
+        self.emu = nfc.tag.tt3.Type3TagEmulation(self, tgt)
+        for code, mode in table:
+            if mode == "deflt":
+                self.emu.add_service(code, None, None)
+            else:
+                self.emu.add_service(code, self._reader(mode), self._writer(mode))
+
+    def ids(self):
+        return "%s/%s/%s" % (hx(self.emu.idm), hx(self.emu.pmm), hx(self.emu.sys))
+
+    def tabtext(self):
+        return ",".join("%d:%s" % cm for cm in self.table) or "-"
+
+    def _reader(self, mode):
+        def read(block_number, rb, re):
+            self.calls.append("r%d:%d:%d" % (block_number, rb, re))
+            if mode == "even" and block_number % 2:
+                return None
+            if block_number < len(self.store) / 16:
+                return self.store[block_number * 16:(block_number + 1) * 16]
+        return read
+
+    def _writer(self, mode):
+        def write(block_number, block_data, wb, we):
+            self.calls.append("w%d:%d:%d" % (block_number, wb, we))
+            if mode == "ro" or (mode == "even" and block_number % 2):
+                return False
+            if block_number < len(self.store) / 16:
+                self.store[block_number * 16:(block_number + 1) * 16] = block_data
+                return True
+        return write
+
+    def command(self, cmd):
+        """-> outcome text of Drv `t3g` (callback log omitted when a default-callback service is present)"""
+        del self.calls[:]
+        try:
+            rsp = self.emu.process_command(bytearray(cmd))
+        except Exception as e:  # noqa
+            return "exc " + exc_name(e)
+        if rsp is not None and not isinstance(rsp, (bytes, bytearray)):
+            return "bad-return %r" % (rsp,)
+        return "ok %s store=%s calls=%s" % ("none" if rsp is None else hx(rsp), hx(self.store), ",".join(self.calls) or "-")
+
+
+# ------------------------------------------------------------------ SNEP server with the application side recorded
+class _NdefProxy(object):
+    """stands in for the `ndef` module inside nfc.snep.server during a correspondence run: the real
+    decoder/encoder do the work, what they did with each information field is written into `table`
+    ('<g|p>:<octets>' -> D | V | E | c<code> | d<octets>), the input the Lean model needs for `App`"""
+
+    def __init__(self, table):
+        import ndef
+        self._ndef = ndef
+        self.table = table
+        self.cur = b""
+        self.DecodeError = ndef.DecodeError
+        self.EncodeError = ndef.EncodeError
+
+    def _both(self, v):
+        self.table["g:" + hx(self.cur)] = v
+        self.table["p:" + hx(self.cur)] = v
+
+    def message_decoder(self, octets, *args, **kwargs):
+        self.cur = bytes(octets)
+        try:
+            recs = list(self._ndef.message_decoder(octets, *args, **kwargs))
+        except self._ndef.DecodeError:
+            self._both("D")
+            raise
+        except ValueError:
+            self._both("V")
+            raise
+        return iter(recs)
+
+    def message_encoder(self, records):
+        try:
+            out = b"".join(self._ndef.message_encoder(records))
+        except self._ndef.EncodeError:
+            self.table["g:" + hx(self.cur)] = "E"
+            raise
+        self.table["g:" + hx(self.cur)] = "d" + hx(out)
+        return [out]
+
+
+def _tie_server(mode, max_len, table):
+    import ndef
+    import nfc.snep
+    import nfc.snep.server as S
+    proxy = _NdefProxy(table)
+
+    class Srv(nfc.snep.SnepServer):
+        def process_get_request(self, records):
+            if mode == "enc":
+                table["g:" + hx(proxy.cur)] = "E"
+                raise ndef.EncodeError("resource not available")
+            if mode == "echo" and records:
+                return list(records)
+            r = nfc.snep.SnepServer.process_get_request(self, records)
+            table["g:" + hx(proxy.cur)] = "c%d" % r
+            return r
+
+        def process_put_request(self, records):
+            if mode == "enc":
+                table["p:" + hx(proxy.cur)] = "V"
+                raise ValueError("application does not like the message")
+            r = nfc.snep.SnepServer.process_put_request(self, records)
+            table["p:" + hx(proxy.cur)] = "c%d" % r
+            return r
+    return Srv(_NoLLC(), max_acceptable_length=max_len), proxy, S
+
+
+def table_text(table):
+    return ",".join("%s=%s" % kv for kv in sorted(table.items())) or "-"
+
+
+def snep_request_tie(data, mode="default"):
+    """process_snep_request(bytearray(data)) -> (outcome text, table text)"""
+    table = {}
+    srv, proxy, S = _tie_server(mode, 0x100000, table)
+    orig = S.ndef
+    S.ndef = proxy
+    try:
+        r = outcome(lambda: srv.process_snep_request(bytearray(data)))
+    finally:
+        S.ndef = orig
+    return r, table_text(table)
+
+
+def snep_serve_tie(fragments, send_miu=128, max_len=1024, mode="default"):
+    """_serve on a scripted socket -> (outcome text 'ok <sent,..>' | 'exc <Name>', table text, socket)"""
+    table = {}
+    srv, proxy, S = _tie_server(mode, max_len, table)
+    sock = ScriptSocket(fragments, send_miu)
+    orig = S.ndef
+    S.ndef = proxy
+    try:
+        r = outcome(lambda: srv._serve(sock))
+    finally:
+        S.ndef = orig
+    if r == "ok none":
+        r = "ok " + (",".join(hx(m) for m in sock.sent) or "none")
+    return r, table_text(table), sock
+
+
+def snep_client_tie(fragments, op="get", acceptable=1024, send_miu=128):
+    """get_octets / put_octets on a connected scripted socket -> outcome text of Drv `snepcli`"""
+    import nfc.snep
+    cl = nfc.snep.SnepClient(None, acceptable)
+    sock = ScriptSocket(fragments, send_miu)
+    cl.socket, cl.send_miu = sock, send_miu
+    try:
+        r = cl.get_octets(b"\xd0\x00\x00", 0.1) if op == "get" else cl.put_octets(b"\xd0\x00\x00", 0.1)
+    except nfc.snep.SnepError as e:
+        return "ok snep %d" % e.errno, sock
+    except (Hang, Budget) as e:
+        return "exc " + type(e).__name__, sock
+    except Exception as e:  # noqa
+        return "exc " + exc_name(e), sock
+    if r is None:
+        return "ok none", sock
+    if r is True:
+        return "ok true", sock
+    if r is False:
+        return "ok false", sock
+    if isinstance(r, (bytes, bytearray)):
+        return "ok data " + hx(r), sock
+    return "bad-return %r" % (r,), sock
+
+
+def handover_client(fragments, timeout=None, send_miu=128):
+    """HandoverClient.recv_records on a connected scripted socket"""
+    import nfc.handover
+    cl = nfc.handover.HandoverClient(None)
+    sock = ScriptSocket(fragments, send_miu)
+    cl.socket = sock
+    return outcome(lambda: cl.recv_records(timeout), show=lambda r: "records %d" % len(r)), sock
